@@ -1210,7 +1210,7 @@ class _SqliteIndexHashvalToIndex:
         c = self.sqlidx.conn.cursor()
         c.execute("SELECT DISTINCT hashval FROM sourmash_hashes")
         for (hashval,) in c:
-            yield hashval
+            yield convert_hash_from(hashval)
 
     def get(self, key, dv=None):
         "Retrieve idxlist for a given hash."
